@@ -356,6 +356,7 @@ class World:
         self.get = self.sdc.client('Get')
         self.ctx = self.sdc.client('Context')
         self.counter = 0
+        self.last_sel = {}
         self.created = []   # handles of descriptors created by the generator (alive)
         self.deleted = []   # handles deleted by the generator (candidates for re-creation): (handle, parent, kind)
         from sdc11073.mdib import consumermdib
@@ -448,6 +449,17 @@ class TxGen:
         self.pm_types = self.mdib.data_model.pm_types
         self.pm = self.mdib.data_model.pm_names
 
+    def _pick(self, kind, candidates, n):
+        """n of the candidates; with probability 0.35 the same handle set as the previous transaction of this kind (two
+        consecutive reports on the same handle set: every *_by_handle observable has to fire again)"""
+        last = self.w.last_sel.get(kind)
+        if last and self.rng.random() < 0.35 and all(h in candidates for h in last):
+            sel = list(last)
+        else:
+            sel = self.rng.sample(candidates, min(len(candidates), n))
+        self.w.last_sel[kind] = list(sel)
+        return sel
+
     def _new_handle(self, prefix):
         self.w.counter += 1
         return f'{prefix}{self.w.counter}'
@@ -455,7 +467,7 @@ class TxGen:
     # -- state transactions
     def tx_metric(self):
         hs = _handles(self.mdib, lambda d: d.NODETYPE.localname == 'NumericMetricDescriptor')
-        sel = self.rng.sample(hs, min(len(hs), self.rng.choice([1, 1, 2, 4])))
+        sel = self._pick('metric', hs, self.rng.choice([1, 1, 2, 4]))
         with self.mdib.metric_state_transaction() as tr:
             for h in sel:
                 st = tr.get_state(h)
@@ -483,7 +495,7 @@ class TxGen:
         sig = _handles(self.mdib, lambda d: d.NODETYPE.localname == 'AlertSignalDescriptor')
         with self.mdib.alert_state_transaction() as tr:
             n = 0
-            for h in self.rng.sample(hs, min(len(hs), self.rng.choice([1, 2]))):
+            for h in self._pick('alert', hs, self.rng.choice([1, 2])):
                 st = tr.get_state(h)
                 st.Presence = not st.Presence
                 n += 1
@@ -495,7 +507,7 @@ class TxGen:
 
     def tx_component(self):
         hs = _handles(self.mdib, lambda d: d.NODETYPE.localname in ('ChannelDescriptor', 'VmdDescriptor', 'MdsDescriptor'))
-        sel = self.rng.sample(hs, min(len(hs), self.rng.choice([1, 2])))
+        sel = self._pick('component', hs, self.rng.choice([1, 2]))
         with self.mdib.component_state_transaction() as tr:
             for h in sel:
                 st = tr.get_state(h)
@@ -505,7 +517,7 @@ class TxGen:
 
     def tx_operational(self):
         hs = _handles(self.mdib, lambda d: d.NODETYPE.localname.endswith('OperationDescriptor'))
-        h = self.rng.choice(hs)
+        h = self._pick('operational', hs, 1)[0]
         with self.mdib.operational_state_transaction() as tr:
             st = tr.get_state(h)
             st.OperatingMode = self.rng.choice(list(self.pm_types.OperatingMode))
@@ -513,7 +525,7 @@ class TxGen:
 
     def tx_rt(self):
         hs = _handles(self.mdib, lambda d: d.NODETYPE.localname == 'RealTimeSampleArrayMetricDescriptor')
-        sel = self.rng.sample(hs, min(len(hs), self.rng.choice([1, 2, 3])))
+        sel = self._pick('rt', hs, self.rng.choice([1, 2, 3]))
         with self.mdib.rt_sample_state_transaction() as tr:
             for h in sel:
                 st = tr.get_state(h)
@@ -552,7 +564,7 @@ class TxGen:
         sts = sorted(s.Handle for s in self.mdib.context_states.objects)
         if not sts:
             return self.tx_context_new()
-        sel = self.rng.sample(sts, min(len(sts), self.rng.choice([1, 1, 2])))
+        sel = self._pick('context', sts, self.rng.choice([1, 1, 2]))
         with self.mdib.context_state_transaction() as tr:
             for h in sel:
                 st = tr.get_context_state(h)
@@ -694,7 +706,37 @@ class TxGen:
                 self.w.deleted.append(x)
         return f'descr delete {kind} ({len(sub)})'
 
-    KINDS = (('tx_metric', 5), ('tx_string_metric', 1), ('tx_alert', 3), ('tx_component', 2), ('tx_operational', 2),
+    def tx_empty(self):
+        """a transaction that commits without any change (nothing got / written, or a disassociate_all that finds nothing
+        associated): no MdibVersion increment, no report"""
+        kind = self.rng.choice(['metric_state', 'alert_state', 'component_state', 'operational_state', 'rt_sample_state',
+                                'context_state', 'context_state', 'descriptor'])
+        with getattr(self.mdib, kind + '_transaction')() as tr:
+            if kind == 'context_state':
+                _, dh = self._ctx_descr()
+                assoc = self.pm_types.ContextAssociation.ASSOCIATED
+                if dh is not None and not any(s.ContextAssociation == assoc or s.UnbindingMdibVersion is None
+                                              for s in self.mdib.context_states.descriptor_handle.get(dh, [])):
+                    tr.disassociate_all(dh)
+        return f'empty {kind}'
+
+    def tx_descr_context_clear(self):
+        """a context entity written through a descriptor transaction with some or all of its states removed: the UPDATE
+        part lists the remaining states, the consumer has to drop the others (also the last one)"""
+        cands = sorted({s.DescriptorHandle for s in self.mdib.context_states.objects})
+        if not cands:
+            return self.tx_context_new()
+        dh = self.rng.choice(cands)
+        ent = self.mdib.entities.by_handle(dh)
+        handles = sorted(ent.states)
+        drop = handles if self.rng.random() < 0.5 else self.rng.sample(handles, self.rng.randint(1, len(handles)))
+        for h in drop:
+            ent.states.pop(h)
+        with self.mdib.descriptor_transaction() as tr:
+            tr.write_entity(ent)
+        return f'descr update context-clear {len(drop)}/{len(handles)}'
+
+    KINDS = (('tx_empty', 2), ('tx_descr_context_clear', 1), ('tx_metric', 5), ('tx_string_metric', 1), ('tx_alert', 3), ('tx_component', 2), ('tx_operational', 2),
              ('tx_rt', 2), ('tx_context_new', 3), ('tx_context_update', 3), ('tx_context_delete', 1), ('tx_set_location', 2),
              ('tx_descr_update', 5), ('tx_descr_create', 4), ('tx_descr_delete', 3))
 
@@ -1445,6 +1487,8 @@ class Runner:
             self.fail('stale-or-duplicate-changed-mdib' + (':description' if rep.rk == 6 else ''),
                       f'{where}: {"stale" if stale else "duplicated"} report changed the consumer MDIB: '
                       f'{fmt_line(after_mode, after_vg, 0, [], old, new)[:400]}')
+        if not stale and rep.rk == 6:
+            self._oracle_deleted_subtrees(rep, old, new, where)
         if not stale:
             self.delivered.add(i)
             self.stats['accepted'] += 1
@@ -1483,6 +1527,26 @@ class Runner:
             if named != ch:
                 self.fail('notification-keys:' + ('context' if rep.rk == 3 else 'state'),
                           f'{where}: {OBS_OF_RK[rep.rk]} names #{sorted(named)}, the report changed #{sorted(ch)}')
+
+    def _oracle_deleted_subtrees(self, rep, old, new, where):
+        """a DELETE part for a descriptor the consumer had removes the descriptor with everything below it: afterwards the
+        consumer holds no descriptor (and no state of a descriptor) that has the deleted handle among its ancestors"""
+        deleted = {d[0] for m, d, _, _ in rep.parts if m == 2 and d[0] in old[0]} - set(new[0])
+        if not deleted:
+            return
+        parent = {k: v[1] for k, v in new[0].items()}
+        below = set()
+        for k in parent:
+            a, n = parent[k], 0
+            while a is not None and n < 1000:
+                if a in deleted:
+                    below.add(k)
+                    break
+                a, n = parent.get(a), n + 1
+        orphans = sorted(k for tab in (new[1], new[2]) for k, st in tab.items() if (st[0] if tab is new[1] else st[1]) in below)
+        if below:
+            self.fail('deleted-descriptor-keeps-subtree', f'{where}: descriptor(s) #{sorted(deleted)} deleted, the consumer still holds '
+                                                          f'descriptors #{sorted(below)} below them (states of them: #{orphans})')
 
     def _count_branches(self, rep, before_vg, old):
         """which branches of the handlers this delivery exercises (evidence only)"""
@@ -1532,7 +1596,7 @@ class Runner:
             self._advance_sync(self.in_sync_tx, tx)
             self.in_sync_tx = tx
             if self.mirror_oracle and not self.unmirrored:
-                self.check_mirror(tx, where)
+                self.check_mirror_and_idle(tx, where)
 
     def _advance_sync(self, from_tx, to_tx):
         """transactions (from_tx, to_tx] are now reflected: book-keeping of the context states that were deleted without
@@ -1542,6 +1606,17 @@ class Runner:
             self.unmirrored -= hist.heals.get(t, set())
             if t in hist.excluded_tx:
                 self.unmirrored.add(hist.excluded_tx[t])
+
+    def check_mirror_and_idle(self, tx, where, psnap=None):
+        """mirror after transaction `tx`, and after every directly following transaction that sent no report (an empty
+        transaction: the provider content, MdibVersion included, must not have changed without a report)"""
+        self.check_mirror(tx, where, psnap)
+        hist = self.hist
+        with_reports = set(hist.tx_of_wire)
+        t = tx + 1
+        while t < len(hist.txs) and t not in with_reports and t not in hist.excluded_tx and t not in hist.epoch_start:
+            self.check_mirror(t, f'{where}; then transaction {t} ("{hist.txs[t]}") without any report')
+            t += 1
 
     def check_mirror(self, tx, where, psnap=None):
         lb = self.w.lb
@@ -1602,7 +1677,7 @@ class Runner:
             self.unmirrored = set()
             self._advance_sync(cap.tx, self.in_sync_tx)
             if complete and self.mirror_oracle and not self.unmirrored:
-                self.check_mirror(tx, where, psnap=None if applicable else cap.psnap)
+                self.check_mirror_and_idle(tx, where, psnap=None if applicable else cap.psnap)
 
     def run(self, schedule):
         for e in schedule:
@@ -1983,11 +2058,130 @@ def scenario_duplicates_announce_nothing(world, rng):
     return rec.hist, [('reload', 0, 0, [])] + [('deliver', i) for j in w for i in (j, j)]
 
 
-SCENARIOS = (scenario_ctx_answer_newer, scenario_buffer_race, scenario_commit_during_getmdib, scenario_duplicates_announce_nothing, scenario_context_delete_heals, scenario_dup_create, scenario_alert_source, scenario_inflight_same_version,
+def scenario_lost_child_delete(world, rng):
+    """a child descriptor is deleted and that report is lost; then its parent is deleted and this report arrives: the
+    consumer has to remove the whole subtree it still holds"""
+    gen = TxGen(world, rng)
+    rec = HistoryRecorder(world)
+    vmd = _first(world.mdib, 'VmdDescriptor')
+    hc, hm1, hm2 = gen._new_handle('scn_ch'), gen._new_handle('scn_m'), gen._new_handle('scn_m')  # noqa: SLF001
+
+    def create():
+        with world.mdib.descriptor_transaction() as tr:
+            tr.add_descriptor(*_args(gen._mk_channel(hc, vmd)))  # noqa: SLF001
+            tr.add_descriptor(*_args(gen._mk_metric(hm1, hc)))  # noqa: SLF001
+            tr.add_descriptor(*_args(gen._mk_metric(hm2, hc)))  # noqa: SLF001
+        return 'descr create channel+metric'
+
+    def delete(h):
+        def fn():
+            with world.mdib.descriptor_transaction() as tr:
+                tr.remove_descriptor(h)
+            return 'descr delete ' + h
+        return fn
+    w1 = rec.tx(create)
+    w2 = rec.tx(delete(hm1))        # lost
+    w3 = rec.tx(gen.tx_metric)
+    w4 = rec.tx(delete(hc))
+    w5 = rec.tx(gen.tx_metric)
+    assert w2
+    return rec.hist, [('reload', 0, 0, [])] + [('deliver', i) for i in w1 + w3 + w4 + w5]
+
+
+def _args(pair):
+    return pair[0], True, pair[1]
+
+
+def scenario_empty_transactions(world, rng):
+    """transactions of every kind that commit without a change: no version increment, the consumer stays a mirror"""
+    gen = TxGen(world, rng)
+    rec = HistoryRecorder(world)
+    mdib = world.mdib
+    w = rec.tx(gen.tx_metric)
+
+    def empty(kind):
+        def fn():
+            with getattr(mdib, kind + '_transaction')() as tr:
+                if kind == 'context_state':
+                    for dh in _handles(mdib, lambda d: d.is_context_descriptor):
+                        assoc = gen.pm_types.ContextAssociation.ASSOCIATED
+                        if not any(s.ContextAssociation == assoc or s.UnbindingMdibVersion is None
+                                   for s in mdib.context_states.descriptor_handle.get(dh, [])):
+                            tr.disassociate_all(dh)
+            return f'empty {kind}'
+        return fn
+    for kind in ('metric_state', 'alert_state', 'component_state', 'operational_state', 'rt_sample_state', 'context_state',
+                 'descriptor'):
+        assert not rec.tx(empty(kind))
+    w += rec.tx(gen.tx_alert)
+    assert not rec.tx(empty('context_state'))
+    return rec.hist, [('reload', 0, 0, [])] + [('deliver', i) for i in w]
+
+
+def scenario_same_handles_twice(world, rng):
+    """two consecutive reports of each kind that change exactly the same handle set: the second one has to be announced
+    like the first one"""
+    gen = TxGen(world, rng)
+    rec = HistoryRecorder(world)
+    w = rec.tx(gen.tx_context_new)
+    for name in ('tx_metric', 'tx_alert', 'tx_component', 'tx_operational', 'tx_rt', 'tx_context_update'):
+        kind = name[3:].replace('_update', '')
+        w += rec.tx(getattr(gen, name))
+        sel = list(world.last_sel.get(kind) or [])
+
+        def again(_name=name, _kind=kind, _sel=sel):
+            world.last_sel[_kind] = list(_sel)
+            orig = gen.rng.random
+            gen.rng.random = lambda: 0.0          # take the "same handle set" branch of _pick
+            try:
+                return getattr(gen, _name)()
+            finally:
+                gen.rng.random = orig
+        w += rec.tx(again)
+    return rec.hist, [('reload', 0, 0, [])] + [('deliver', i) for i in w]
+
+
+def scenario_context_clear_by_descriptor_tx(world, rng):
+    """context states removed by writing the context entity through a descriptor transaction: first one of two, then the
+    last one (UPDATE part without any state)"""
+    gen = TxGen(world, rng)
+    rec = HistoryRecorder(world, record_cores=True)
+    mdib = world.mdib
+    pat = _first(mdib, 'PatientContextDescriptor')
+    ent = mdib.entities.by_handle(pat)
+    handles = [gen._new_handle('scn_clr'), gen._new_handle('scn_clr')]  # noqa: SLF001
+
+    def new_state(h):
+        def fn():
+            with mdib.context_state_transaction() as tr:
+                st = tr.mk_context_state(pat, h, set_associated=False)
+                st.CoreData.Givenname = h
+            return 'context new pat'
+        return fn
+
+    def keep_only(keep):
+        def fn():
+            ent = mdib.entities.by_handle(pat)
+            for h in list(ent.states):
+                if h not in keep:
+                    ent.states.pop(h)
+            with mdib.descriptor_transaction() as tr:
+                tr.write_entity(ent)
+            return 'descr update context-clear'
+        return fn
+    del ent
+    w = rec.tx(keep_only([])) if mdib.context_states.descriptor_handle.get(pat) else []
+    w += rec.tx(new_state(handles[0])) + rec.tx(new_state(handles[1])) + rec.tx(keep_only([handles[1]])) + \
+        rec.tx(gen.tx_metric) + rec.tx(keep_only([])) + rec.tx(gen.tx_metric)
+    return rec.hist, [('reload', 0, 0, [])] + [('deliver', i) for i in w]
+
+
+SCENARIOS = (scenario_ctx_answer_newer, scenario_lost_child_delete, scenario_empty_transactions, scenario_same_handles_twice,
+             scenario_context_clear_by_descriptor_tx, scenario_buffer_race, scenario_commit_during_getmdib, scenario_duplicates_announce_nothing, scenario_context_delete_heals, scenario_dup_create, scenario_alert_source, scenario_inflight_same_version,
              scenario_context_keys, scenario_orphan_state)
 
 
-def run_scenarios(ctx, world, mirror_oracle=True):
+def run_scenarios(ctx, world, mirror_oracle=True, notif_oracle=False):
     cases = []
     for fn in SCENARIOS:
         hist, sched = fn(world, ctx.subrng('scenario', fn.__name__))
@@ -1995,7 +2189,7 @@ def run_scenarios(ctx, world, mirror_oracle=True):
 
         def fail(sig, detail, _case=case, _hist=hist):
             ctx.fail(sig, detail, {**_case, 'txs': _hist.txs})
-        runner = Runner(world, hist, fail, ctx.count, mirror_oracle=mirror_oracle).run(sched)
+        runner = Runner(world, hist, fail, ctx.count, mirror_oracle=mirror_oracle, notif_oracle=notif_oracle).run(sched)
         cases.append(_result(case, hist, sched, runner))
         ctx.count('scenarios')
     return cases
@@ -2009,7 +2203,7 @@ def _scenario_worker(args):
     try:
         world = World()
         try:
-            res = run_scenarios(ctx, world, mirror)
+            res = run_scenarios(ctx, world, mirror, notif_oracle=(prop == 'C01'))
         finally:
             world.stop()
         err = None
@@ -2060,7 +2254,7 @@ def replay(ctx, obj):
     world = World()
     try:
         if 'scenario' in case:
-            run_scenarios(sub, world)
+            run_scenarios(sub, world, True, notif_oracle=(ctx.prop == 'C01'))
         else:
             run_chunk(sub, world, case['key'], case['history'] // CHUNK, case['n_hist'], 0, tuple(case['n_tx']),
                       sched_gen=case['sched_gen'], only=(case['history'], case['schedule']))
